@@ -95,7 +95,10 @@ def queue_pressure(rng, n):
         k = rng.randint(3, 6)
         calls = [{'i': i + 1, 'at': 0.0, 'arg': i + 1} for i in range(k)]
         victim = rng.randint(2, k)
-        calls[victim - 1]['cancel_at'] = rng.choice([0.0, 0.5, 1.0, 2.0])
+        if rng.random() < 0.6:
+            calls[victim - 1]['cancel_iters'] = rng.randint(1, 9)
+        else:
+            calls[victim - 1]['cancel_at'] = rng.choice([0.5, 1.0, 2.0])
         if rng.random() < 0.4:
             v2 = rng.randint(1, k)
             calls[v2 - 1]['tmo'] = rng.choice([0.5, 1.0, 3.0])
